@@ -1,12 +1,15 @@
 """C18 — a model's result depends only on its own arguments; caller data is never mutated.
 
-E4 histories: random sequences of constructions / solves over all model classes that SHARE their argument objects
-(graph, optimization_options, solver_options, constraint list, ignore list; omitted arguments -> the classes' shared
-mutable defaults).  Before and after every step deep snapshots of all shared objects and of every class's default
-argument objects are compared (the property, evaluated directly) and the keys of optimization_options are compared
-with the heap of Effects.v.  The last construction is repeated with fresh copies of the initial argument values and
-must give the same solved status / objective / solution; every getter is called three times."""
-import copy, json
+E4 histories: random sequences of constructions / solves over all exported model classes (the 13 graph model classes,
+MinGenSet, MinSetCover, NumPathsOptimization) that SHARE their argument objects: graph, optimization_options,
+solver_options, constraint list, elements_to_ignore, error_scaling (incl. factor 0), additional starts/ends, in edge and in
+node mode; every argument is either passed (the shared object) or OMITTED (the class's shared mutable default).
+Before and after every step deep snapshots of all shared objects, of the default-argument objects of every function of every
+flowpaths class, of the data attributes of those classes and of the mutable module-level objects are compared (the property,
+evaluated directly) and the keys of optimization_options are compared with the heap of Effects.v.  The last construction
+is repeated with fresh copies of the initial argument values and must give the same solved status / objective /
+solution (corrected graph); every getter is called three times."""
+import copy, json, sys, types
 import networkx as nx
 import common, gen
 from engines import c19_inputs as ci
@@ -16,85 +19,186 @@ EXPLANATION = ("Theorems of Props/C18.v are about Effects.step/run: a hand-writt
                "optimization_options is held; everything else is copied or read). Proved at full strength: frame for every class and argument "
                "vector, history independence over arbitrary operation lists, idempotent getters; for any summary of this shape only "
                "optimization_options can be touched and caller keys survive; old_* theorems refute frame / history independence for the "
-               "summary of the code before 5ed9792 (DESIGN #16). Thin tie: this engine replays histories and compares snapshots.")
-ASSUMPTIONS = ["deep snapshots: copy.deepcopy + == on graph nodes/edges/attribute dicts, dicts, lists, and on __init__.__defaults__ of every class",
+               "summary of the code before 5ed9792 (DESIGN #16). Thin tie: this engine replays histories and compares snapshots; the 'every "
+               "other parameter is copied or only read' half of the summaries is checked ONLY by these snapshots (shared objects, default "
+               "objects, class attributes, module-level mutables) and by the fresh-argument repetition.")
+ASSUMPTIONS = ["deep snapshots: copy.deepcopy + == on graph nodes/edges/attribute dicts, dicts, lists; on __defaults__/__kwdefaults__ of every "
+               "function of every class defined in a flowpaths module; on the data attributes of those classes; on module-level dict/list/set objects",
                "HiGHS with threads=1 is deterministic for identical models (used when the last construction is repeated with fresh arguments)"]
 TRUSTED = ["model: coq/theories/Effects.v; proofs EffectsProofs.v"]
 
-MODEL_CLASSES = ci.DAG_CLASSES + ci.CYC_CLASSES + ["MinErrorFlow"]
+GRAPH_MODELS = ci.DAG_CLASSES + ci.CYC_CLASSES + ["MinErrorFlow"]
+OTHER = ["MinGenSet", "MinSetCover", "NumPathsOptimization"]
 KEYCODE = {"trusted_edges_for_safety": 0, "allow_empty_paths": 1, "optimize_with_safe_paths": 2, "optimize_with_safe_sequences": 3,
            "optimize_with_safe_zero_edges": 4, "optimize_with_subpath_constraints_as_safe_sequences": 5,
            "optimize_with_safety_as_subpath_constraints": 6, "verif_user_key": 100}
 ALIASING = {"kLeastAbsErrors", "kMinPathError", "kFlowDecompCycles", "kLeastAbsErrorsCycles", "kMinPathErrorCycles", "MinFlowDecompCycles"}
+HAS_SCALING = {"kLeastAbsErrors", "kMinPathError", "kLeastAbsErrorsCycles", "kMinPathErrorCycles", "MinErrorFlow"}
+HAS_STARTS_EDGE = {"kMinPathError", "kLeastAbsErrors", "kPathCover", "MinPathCover", "kLeastAbsErrorsCycles", "kMinPathErrorCycles",
+                   "kPathCoverCycles", "MinPathCoverCycles", "MinErrorFlow"}
+NODE_MODE_OK = set(GRAPH_MODELS)
+
+
+# ------------------------------------------------------------------------------------------ global (non-argument) state
+def _flowpaths_objects():
+    """references to everything a construction could touch besides its arguments: (label, getter)"""
+    import flowpaths
+    out = []
+    for mname, mod in sorted(sys.modules.items()):
+        if not (mname == "flowpaths" or mname.startswith("flowpaths.")) or mod is None:
+            continue
+        for gname, val in sorted(vars(mod).items()):
+            if gname.startswith("__"):
+                continue
+            if isinstance(val, (dict, list, set)):
+                out.append(("%s.%s" % (mname, gname), val))
+            elif isinstance(val, type) and getattr(val, "__module__", "") == mname:
+                for aname, attr in sorted(vars(val).items()):
+                    f = attr.__func__ if isinstance(attr, (staticmethod, classmethod)) else attr
+                    if isinstance(f, types.FunctionType):
+                        out.append(("%s.%s.%s.__defaults__" % (mname, gname, aname), (f, "d")))
+                    elif not aname.startswith("__") and not callable(attr) and not isinstance(attr, property):
+                        out.append(("%s.%s.%s" % (mname, gname, aname), (val, aname)))
+            elif isinstance(val, types.FunctionType) and getattr(val, "__module__", "") == mname:
+                out.append(("%s.%s.__defaults__" % (mname, gname), (val, "d")))
+    return out
+
+
+_OBJS = None
+
+
+def global_snapshot():
+    global _OBJS
+    if _OBJS is None:
+        import flowpaths  # noqa
+        _OBJS = _flowpaths_objects()
+    snap = {}
+    for label, ref in _OBJS:
+        try:
+            if isinstance(ref, tuple) and ref[1] == "d":
+                snap[label] = copy.deepcopy((ref[0].__defaults__, ref[0].__kwdefaults__))
+            elif isinstance(ref, tuple):
+                snap[label] = copy.deepcopy(getattr(ref[0], ref[1], None))
+            else:
+                snap[label] = copy.deepcopy(ref)
+        except Exception:
+            snap[label] = "<uncopyable>"
+    return snap
 
 
 def graph_snapshot(G):
     return (list(G.nodes(data=True)), list(G.edges(data=True)), dict(G.graph))
 
 
-def all_defaults():
-    import flowpaths as fp
-    out = {}
-    for name in MODEL_CLASSES + ci.GRAPH_CLASSES + ["AbstractPathModelDAG", "AbstractWalkModelDiGraph", "NumPathsOptimization", "MinGenSet", "MinSetCover"]:
-        C = getattr(fp, name)
-        out[name] = (copy.deepcopy(C.__init__.__defaults__), copy.deepcopy(C.__init__.__kwdefaults__))
-    return out
-
-
+# ------------------------------------------------------------------------------------------ the caller's objects
 class Shared:
     """the caller's objects of one history"""
     def __init__(self, rng):
         sd = ci.gen_valid(rng, "kFlowDecomp"); sd["origin"] = "edge"; sd["node_w"] = {}
         sc = ci.gen_valid(rng, "kFlowDecompCycles"); sc["origin"] = "edge"; sc["node_w"] = {}
-        self.spec = {"dag": sd, "cyc": sc}
         self.G = {"dag": ci.build_graph(sd), "cyc": ci.build_graph(sc)}
-        for kind in ("dag", "cyc"):                 # node weights too, so that node mode can share the same graph object
-            for v in self.G[kind].nodes():
-                self.G[kind].nodes[v]["nflow"] = 1 + sum(d.get("flow", 0) for _, _, d in self.G[kind].in_edges(v, data=True))
-        self.cons = {}
+        self.cons = {}; self.ign = {}; self.scal = {}; self.starts = {}; self.ends = {}
         for kind in ("dag", "cyc"):
-            es = list(self.G[kind].edges())
-            self.cons[kind] = [[es[rng.randrange(len(es))]]] if rng.random() < 0.6 else []
-        self.ign = {kind: ([list(self.G[kind].edges())[0]] if rng.random() < 0.3 else []) for kind in ("dag", "cyc")}
+            G = self.G[kind]
+            for v in G.nodes():                     # node weights under the same attribute name: node mode shares the graph object
+                G.nodes[v]["flow"] = max(sum(d.get("flow", 0) for _, _, d in G.in_edges(v, data=True)),
+                                         sum(d.get("flow", 0) for _, _, d in G.out_edges(v, data=True)))
+            es = list(G.edges()); ns = list(G.nodes())
+            self.cons[kind] = {"edge": ([[es[rng.randrange(len(es))]]] if rng.random() < 0.6 else []),
+                               "node": ([[ns[rng.randrange(len(ns))]]] if rng.random() < 0.6 else [])}
+            self.ign[kind] = {"edge": ([es[0]] if rng.random() < 0.3 else []), "node": ([ns[0]] if rng.random() < 0.3 else [])}
+            # at most one element gets factor 0, a different one than the ignored element, and only if something stays live
+            # (all elements ignored is the OverflowError region of DESIGN #24)
+            ze = es[1] if len(es) >= 3 else None; zn = ns[1] if len(ns) >= 3 else None
+            self.scal[kind] = {"edge": dict(([(ze, 0)] if ze else []) + [(es[-1], rng.choice([0.5, 1]))]),
+                               "node": dict(([(zn, 0)] if zn else []) + [(ns[-1], rng.choice([0.5, 1]))])}
+            self.starts[kind] = [ns[rng.randrange(len(ns))]]; self.ends[kind] = [ns[rng.randrange(len(ns))]]
         self.opts = {"verif_user_key": 1} if rng.random() < 0.75 else {}
         self.sopts = dict(ci.SOLVER_OPTIONS)
         self.k = {"dag": max(1, sd["k"] or 1), "cyc": max(1, sc["k"] or 1)}
+        nums = sorted({rng.randint(1, 9) for _ in range(4)})
+        self.numbers = nums; self.total = sum(nums[:2]) if len(nums) > 1 else nums[0]
+        self.universe = list(range(1, 7))
+        self.subsets = [sorted(rng.sample(self.universe, rng.randint(1, 3))) for _ in range(4)] + [list(self.universe)]
+        self.subset_weights = [rng.randint(1, 4) for _ in self.subsets]
 
-    def snapshot(self):
-        return copy.deepcopy({"G": {k: graph_snapshot(g) for k, g in self.G.items()}, "cons": self.cons, "ign": self.ign,
-                              "opts": self.opts, "sopts": self.sopts, "defaults": all_defaults()})
+    ARGS = ("cons", "ign", "scal", "starts", "ends", "opts", "sopts", "numbers", "universe", "subsets", "subset_weights")
+
+    def snapshot(self, with_globals=True):
+        s = {"G": {k: graph_snapshot(g) for k, g in self.G.items()}}
+        for a in Shared.ARGS:
+            s[a] = getattr(self, a)
+        s = copy.deepcopy(s)
+        if with_globals:
+            s["globals"] = global_snapshot()
+        return s
+
+    @staticmethod
+    def fresh_from(sh, init):
+        f = Shared.__new__(Shared)
+        f.k = dict(sh.k); f.total = sh.total
+        f.G = {}
+        for kind in ("dag", "cyc"):
+            H = nx.DiGraph(); nodes, edges, gattr = init["G"][kind]
+            H.add_nodes_from(copy.deepcopy(nodes)); H.add_edges_from(copy.deepcopy(edges)); H.graph.update(copy.deepcopy(gattr)); f.G[kind] = H
+        for a in Shared.ARGS:
+            setattr(f, a, copy.deepcopy(init[a]))
+        return f
 
 
 def make_op(rng):
-    cls = rng.choice(MODEL_CLASSES)
-    return {"cls": cls, "pass_opts": rng.random() < 0.7, "pass_sopts": rng.random() < 0.8, "pass_cons": rng.random() < 0.6,
-            "pass_ign": rng.random() < 0.5, "sup": cls in ("kLeastAbsErrors", "kMinPathError") and rng.random() < 0.35,
-            "solve": rng.random() < 0.85}
+    cls = rng.choice(GRAPH_MODELS + GRAPH_MODELS + OTHER)
+    op = {"cls": cls, "pass_opts": rng.random() < 0.7, "pass_sopts": rng.random() < 0.8, "pass_cons": rng.random() < 0.6,
+          "pass_ign": rng.random() < 0.4, "pass_scal": rng.random() < 0.6, "pass_starts": rng.random() < 0.3,
+          "node": rng.random() < 0.3, "sup": cls in ("kLeastAbsErrors", "kMinPathError") and rng.random() < 0.3,
+          "solve": rng.random() < 0.85, "inner": rng.choice(["kMinPathError", "kLeastAbsErrors"])}
+    if cls == "MinErrorFlow":
+        op["pass_scal"] = rng.random() < 0.8
+    if cls == "MinSetCover":
+        op["solve"] = True              # its is_solved() raises before solve() by design
+    return op
 
 
 def kwargs_for(op, sh):
     """argument vector of one construction; objects come from `sh` (shared) — omitted ones fall back to the class defaults"""
-    cls = op["cls"]; kind = "cyc" if cls in ci.CYC_CLASSES else "dag"
-    if cls == "MinErrorFlow":
-        kind = "dag"
+    import flowpaths as fp
+    cls = op["cls"]
+    if cls == "MinGenSet":
+        kw = {"numbers": sh.numbers, "total": sh.total, "weight_type": int}
+        if op["pass_sopts"]: kw["solver_options"] = sh.sopts
+        return kw
+    if cls == "MinSetCover":
+        kw = {"universe": sh.universe, "subsets": sh.subsets, "subset_weights": sh.subset_weights}
+        if op["pass_sopts"]: kw["solver_options"] = sh.sopts
+        return kw
+    gcls = op["inner"] if cls == "NumPathsOptimization" else cls
+    kind = "cyc" if gcls in ci.CYC_CLASSES else "dag"
+    mode = "node" if (op["node"] and gcls in NODE_MODE_OK) else "edge"
     kw = {"G": sh.G[kind]}
-    if cls in ci.IS_COVER:
-        pass
+    if gcls in ci.IS_COVER:
+        if mode == "node": kw["cover_type"] = "node"
     else:
         kw["flow_attr"] = "flow"
-    if cls in ci.HAS_K:
-        kw["k"] = sh.k[kind] + (1 if cls not in ci.IS_FD else 0)
-    if op["pass_opts"] and cls != "MinErrorFlow":
+        if mode == "node": kw["flow_attr_origin"] = "node"
+    if gcls in ci.HAS_K and cls != "NumPathsOptimization":
+        kw["k"] = sh.k[kind] + (1 if gcls not in ci.IS_FD else 0)
+    if op["pass_opts"] and gcls != "MinErrorFlow":
         kw["optimization_options"] = sh.opts
     if op["pass_sopts"]:
         kw["solver_options"] = sh.sopts
-    if op["pass_cons"] and cls in ci.HAS_CONS:
-        kw["subset_constraints" if cls in ci.CYC_CLASSES else "subpath_constraints"] = sh.cons[kind]
+    if op["pass_cons"] and gcls in ci.HAS_CONS:
+        kw["subset_constraints" if gcls in ci.CYC_CLASSES else "subpath_constraints"] = sh.cons[kind][mode]
     if op["pass_ign"]:
-        kw["elements_to_ignore"] = sh.ign[kind]
+        kw["elements_to_ignore"] = sh.ign[kind][mode]
+    if op["pass_scal"] and gcls in HAS_SCALING:
+        kw["error_scaling"] = sh.scal[kind][mode]
+    if op["pass_starts"] and gcls in HAS_STARTS_EDGE and not (gcls == "MinErrorFlow" and kind == "cyc"):
+        kw["additional_starts"] = sh.starts[kind]; kw["additional_ends"] = sh.ends[kind]
     if op["sup"]:
         kw["solution_weights_superset"] = sorted({d["flow"] for _, _, d in sh.G[kind].edges(data=True)} | {1})
-    return kw, kind
+    if cls == "NumPathsOptimization":
+        kw.update({"model_type": getattr(fp, gcls), "stop_on_first_feasible": True, "min_num_paths": 1, "max_num_paths": 3})
+    return kw
 
 
 def canon(x):
@@ -105,7 +209,7 @@ def canon(x):
     if isinstance(x, (list, tuple)):
         return [canon(v) for v in x]
     if isinstance(x, (set, frozenset)):
-        return sorted(canon(v) for v in x)
+        return sorted((canon(v) for v in x), key=str)
     if isinstance(x, float):
         return round(x, 6)
     return x
@@ -118,7 +222,7 @@ def run_op(op, kw):
     try:
         m = getattr(fp, op["cls"])(**kw)
         if op["solve"]:
-            m.solve(); m.solve() if False else None
+            m.solve()
         s = [bool(m.is_solved()) for _ in range(3)]
         getter_ok = s[0] == s[1] == s[2]
         res["solved"] = s[0]
@@ -136,15 +240,29 @@ def run_op(op, kw):
 
 
 def diff_snap(a, b):
-    return [k for k in a if a[k] != b[k]] + [("G", k) for k in a["G"] if a["G"][k] != b["G"][k]]
+    out = [k for k in a if k not in ("G", "globals") and a[k] != b[k]]
+    out += ["G." + k for k in a["G"] if a["G"][k] != b["G"][k]]
+    out += ["default/global " + k for k in a["globals"] if a["globals"][k] != b["globals"].get(k)]
+    return out
+
+
+def model_cls_id(op):
+    """class whose optimization_options summary applies (NumPathsOptimization forwards its kwargs to the wrapped class;
+    MinGenSet / MinSetCover take no such dict: sent as an operation that passes none)"""
+    cls = op["cls"]
+    if cls == "NumPathsOptimization":
+        return ci.CLS_ID[op["inner"]], op["pass_opts"] and op["solve"]
+    if cls in ("MinGenSet", "MinSetCover"):
+        return ci.CLS_ID["MinErrorFlow"], False
+    return ci.CLS_ID[cls], op["pass_opts"] and cls != "MinErrorFlow"
 
 
 def run(ctx):
-    ctx.rule = ("case = one history: 3-7 constructions/solves of random model classes sharing one DAG, one cyclic graph, one "
-                "optimization_options dict (empty or with a user key), one solver_options dict, constraint and ignore lists; each argument "
-                "is passed or omitted (shared defaults); non-trivial = at least two classes and a non-empty shared optimization_options; "
-                "distinct by the operation list and initial dict")
-    n_hist = ctx.budget(160, 3000)
+    ctx.rule = ("case = one history: 3-7 constructions/solves of random classes (13 graph model classes in edge or node mode, MinGenSet, "
+                "MinSetCover, NumPathsOptimization) sharing one DAG, one cyclic graph, one optimization_options dict (empty or with a user key), "
+                "solver_options, constraint lists, ignore lists, error_scaling dicts (with factor 0), additional starts/ends, number / subset "
+                "lists; each argument is passed or omitted (shared defaults); non-trivial = at least two classes; distinct by the operation list")
+    n_hist = ctx.budget(150, 3000)
     reqs = []; hists = []
     for i in range(n_hist):
         rng = ctx.rng("history", i)
@@ -155,31 +273,28 @@ def run(ctx):
         ops = [make_op(rng) for _ in range(rng.randint(3, 7))]
         init = sh.snapshot()
         steps = []
+        before = init
         for op in ops:
-            kw, kind = kwargs_for(op, sh)
-            before = sh.snapshot()
+            kw = kwargs_for(op, sh)
             res, getter_ok, exc = run_op(op, kw)
             after = sh.snapshot()
             steps.append({"op": op, "changed": diff_snap(before, after), "opts_keys": list(sh.opts.keys()), "result": res,
                           "getter_ok": getter_ok, "exc": exc, "has_cons": bool(kw.get("subpath_constraints") or kw.get("subset_constraints"))})
+            before = after
         # the last construction again, with fresh argument objects holding the INITIAL values
-        fresh = Shared.__new__(Shared)
-        fresh.__dict__.update(copy.deepcopy({k: v for k, v in sh.__dict__.items() if k not in ("G", "cons", "ign", "opts", "sopts")}))
-        fresh.G = {}
-        for kind in ("dag", "cyc"):
-            H = nx.DiGraph(); nodes, edges, gattr = init["G"][kind]
-            H.add_nodes_from(copy.deepcopy(nodes)); H.add_edges_from(copy.deepcopy(edges)); H.graph.update(copy.deepcopy(gattr)); fresh.G[kind] = H
-        fresh.cons = copy.deepcopy(init["cons"]); fresh.ign = copy.deepcopy(init["ign"]); fresh.opts = copy.deepcopy(init["opts"]); fresh.sopts = copy.deepcopy(init["sopts"])
-        kwf, _ = kwargs_for(ops[-1], fresh)
-        res_fresh, _, exc_fresh = run_op(ops[-1], kwf)
+        fresh = Shared.fresh_from(sh, init)
+        res_fresh, _, exc_fresh = run_op(ops[-1], kwargs_for(ops[-1], fresh))
         init_keys = [KEYCODE.get(k, 199) for k in init["opts"].keys()]
-        reqs.append("effects " + common.toks(len(init_keys), init_keys, len(ops),
-                                             [[ci.CLS_ID[s["op"]["cls"]], s["op"]["pass_opts"], s["op"]["sup"], s["has_cons"], s["op"]["solve"]] for s in steps]))
+        mops = []
+        for s in steps:
+            cid, passes = model_cls_id(s["op"])
+            mops.append([cid, passes, s["op"]["sup"], s["has_cons"], s["op"]["solve"]])
+        reqs.append("effects " + common.toks(len(init_keys), init_keys, len(ops), mops))
         hists.append((i, ops, init, steps, res_fresh, exc_fresh))
     outs = ctx.model.run(reqs)
     for (i, ops, init, steps, res_fresh, exc_fresh), req, out in zip(hists, reqs, outs):
         classes = [o["cls"] for o in ops]
-        ctx.case([req], nontrivial=len(set(classes)) >= 2 and bool(init["opts"]),
+        ctx.case([req, json.dumps(ops, sort_keys=True)], nontrivial=len(set(classes)) >= 2,
                  sample={"ops": ops, "initial_options": canon(init["opts"]), "options_keys_after_each_step": [s["opts_keys"] for s in steps]})
         ctx.count("E4_histories", "histories"); ctx.count("E4_histories", "steps", len(steps))
         replay = {"history": i, "ops": ops, "initial_options": canon(init["opts"]), "steps": canon([{k: v for k, v in s.items() if k != "result"} for s in steps]), "request": req, "model": out}
@@ -189,15 +304,17 @@ def run(ctx):
         polluted = False
         for j, s in enumerate(steps):
             cls = s["op"]["cls"]; ctx.dist("class:" + cls)
+            for a in ("node", "pass_ign", "pass_scal", "pass_starts"):
+                if s["op"][a]: ctx.dist("arg:" + a)
             if s["exc"]:
                 ctx.count("E4_histories", "steps_raising")
                 ctx.report("a step of a history of valid constructions raised: %s (%s)" % (s["exc"], cls), dict(replay, step=j), concrete=False)
-            # (1) the property, directly: nothing the caller passed (or any default object) changed
+            # (1) the property, directly: nothing the caller passed, no default object, no class / module level object changed
             if s["changed"]:
                 polluted = True
                 what = sorted(set(str(c) for c in s["changed"]))
                 key = (cls + ":mutates:optimization_options") if (what == ["opts"] and cls in ALIASING) else None
-                ctx.report("%s changed caller data: %s (keys now %s)" % (cls, what, s["opts_keys"]), dict(replay, step=j), key=key, concrete=True)
+                ctx.report("%s changed data it does not own: %s" % (cls, what[:6]), dict(replay, step=j), key=key, concrete=True)
             if not s["getter_ok"]:
                 ctx.report("repeated getter calls of %s returned different results" % cls, dict(replay, step=j), concrete=True)
             # (2) correspondence with the heap of Effects.v
@@ -212,13 +329,9 @@ def run(ctx):
         last = steps[-1]
         ctx.count("history_independence", "cases")
         if (last["result"], bool(last["exc"])) != (res_fresh, bool(exc_fresh)):
-            same_status = last["result"]["solved"] == res_fresh["solved"] and last["result"]["objective"] == res_fresh["objective"]
             key = "history:result-differs:optimization_options-polluted" if polluted else None
-            if same_status and not polluted:
-                ctx.count("history_independence", "other_optimal_solution")     # equal status and objective, another optimal solution
-            else:
-                ctx.report("the last model of the history (%s) differs from the same construction with fresh arguments: %s vs %s"
-                           % (last["op"]["cls"], json.dumps(last["result"], default=str)[:300], json.dumps(res_fresh, default=str)[:300]),
-                           replay, key=key, concrete=True)
+            ctx.report("the last model of the history (%s) differs from the same construction with fresh arguments: %s vs %s"
+                       % (last["op"]["cls"], json.dumps(last["result"], default=str)[:300], json.dumps(res_fresh, default=str)[:300]),
+                       replay, key=key, concrete=True)
         else:
             ctx.count("history_independence", "equal")
